@@ -46,6 +46,32 @@ theorem guess_spec {α ε : Type} [DecidableEq α] (check : α → Except ε (Op
         (∀ d ∈ post, ∀ t, check d = .ok (some t) → t ≤ s) :=
   guess_some_iff check _ (fun c hc => hok c ((mem_conventions reg ep c).1 hc)) c
 
+/-- `registry.match_conventions`: when no check raises, the result holds exactly the matching
+classes with their specificities (a permutation of the matches in registry order), is ordered
+from most to least specific, and is *stable*: two matches that are already in an admissible
+order keep their relative order. -/
+theorem match_conventions_spec {α ε : Type} [DecidableEq α] (check : α → Except ε (Option Nat))
+    (cs : List α) (l : List (α × Nat)) (h : matchConventions check cs = .ok l) :
+    l.Pairwise (fun a b => b.2 ≤ a.2)
+    ∧ l.Perm (cs.filterMap (okMatch check))
+    ∧ ∀ a b, List.Sublist [a, b] (cs.filterMap (okMatch check)) → b.2 ≤ a.2 → List.Sublist [a, b] l := by
+  simp only [matchConventions] at h
+  cases hc : collect check cs with
+  | error e => simp [hc] at h
+  | ok m =>
+    simp only [hc, Except.ok.injEq] at h
+    have hm : m = cs.filterMap (okMatch check) := by
+      have := collect_ok check cs (collect_ok_inv check cs m hc)
+      rw [hc] at this
+      cases this; rfl
+    subst h
+    rw [← hm]
+    refine ⟨?_, List.mergeSort_perm _ _, ?_⟩
+    · have := List.pairwise_mergeSort (le := specGe) specGe_trans specGe_total m
+      exact this.imp (fun {a b} hab => by simpa [specGe] using hab)
+    · intro a b hsub hle
+      exact List.pair_sublist_mergeSort specGe_trans specGe_total (by simpa [specGe] using hle) hsub
+
 /-- the chosen class matches, and no class of the registry matches with a higher specificity -/
 theorem guess_maximal {α ε : Type} [DecidableEq α] (check : α → Except ε (Option Nat))
     (reg ep : List α) (c : α) (h : guess check (conventions reg ep) = .ok (some c)) :
@@ -221,6 +247,18 @@ theorem guess_pure (det : Detector) (w : World) (d : Nat) (f : Features)
       | .ok (some c) => if constructible c then (w.bindNew d c, .obj w.nObj) else (w, .errConstruct) := by
   simp only [step, hf, hb]
   rfl
+
+/-- **A dataset nothing matches is refused.**  If no class of the registry matches the dataset,
+`dataset.ems` raises and attaches nothing. -/
+theorem unmatched_refused (env : SynthEnv) (w : World) (d : Nat) (f : Features)
+    (hf : w.feat d = some f) (hb : w.bound d = none)
+    (hno : ∀ c, c ∈ w.reg ∨ c ∈ entryPointClasses → clsCheck env c f = .ok none) :
+    step (detect env) w (.access d) = (w, .errNoConvention) := by
+  rw [guess_pure (detect env) w d f hf hb]
+  have : detect env w.reg f = .ok none := by
+    rw [detect_eq_guess]
+    exact (guess_none_iff _ w.reg entryPointClasses).2 hno
+  rw [this]
 
 /-- two unbound datasets with equal content, in worlds with the same registered classes,
 get a convention of the same class (or the same refusal), whatever their histories -/
